@@ -497,7 +497,7 @@ func TestC16(t *testing.T) {
 			}
 		}
 	}
-	run.Rapid(t, "plans", ev.Pick(300, 40000), func(rt *rapid.T) {
+	run.Rapid(t, "plans", ev.Pick(500, 40000), func(rt *rapid.T) {
 		c := genCase(rt)
 		if v := exec(c); v != nil {
 			run.Candidate(v.sig, v.msg, c)
